@@ -554,8 +554,11 @@ func TestC08Stall(t *testing.T) {
 	})
 }
 
-func TestC08Replay(t *testing.T) {
-	doc := loadReplay(t)
+func TestC08Replay(t *testing.T) { c08ReplayDoc(t, loadReplay(t)) }
+
+func TestC08Regress(t *testing.T) { regress(t, "C08", c08ReplayDoc) }
+
+func c08ReplayDoc(t *testing.T, doc map[string]any) {
 	c := findCase(doc)
 	if c == nil {
 		t.Fatalf("replay: no case")
